@@ -1,5 +1,5 @@
-(* PV.C17.Refuted — counter-models: one per guard conjunct that exists because the CODE fails
-   (open finding C17-FUSE-ALIAS-COLLISION: alias_name_collision_refuted).
+(* PV.C17.Refuted — counter-models: one per guard conjunct that exists because the CODE fails: none left
+   (C17-FUSE-ALIAS-COLLISION repaired in /repo c89db96).
    Regression examples of the repaired findings C17-STATIC-KEY, C17-STATIC-CALLABLE-TUPLE (/repo d3e6e19) and
    C17-CONTEXT-REORDERS-PREDECESSORS (/repo 4400919). *)
 From Coq Require Import List Bool PArith Arith.
@@ -85,26 +85,27 @@ Example inplace_relabel_moved_to_end :
   map tid (nodes (replace_task o_wf o_a (task_replace o_a [o_ctx] 100))) = [1; 2; 3]%positive.
 Proof. crunch. Qed.
 
-(* ---- 4. OPEN finding C17-FUSE-ALIAS-COLLISION: the alias name dask.optimization.fuse makes up is a static string ---- *)
-(* Task('a', f1, 'a-results') -> Task('r', f2) after the inline step: {'results': (f2, (f1, 'a-results'))}; fuse stores
-   it under the new key 'a-results' (= 99) and the static string becomes a reference of the task to itself *)
-Definition al_d : dsk := [(results, STuple [SFun 2; STuple [SFun 1; SStr 99]])].
-
-Theorem alias_name_collision_refuted :
-  exists (d : dsk) (r a : positive),
-    g_alias_unmentioned d a = false /\
-    fuse_step_ok_weak d (FAlias r a) = true /\ nodupp (dkeys d) = true /\ length (dask_sched d) = length d /\
-    dask_get fam_apply d results = ROk (STuple [SAtom 2; STuple [SAtom 1; SStr 99]]) /\
-    dask_get fam_apply (fuse_step d (FAlias r a)) results = RCycle.
-Proof. exists al_d, results, 99%positive. crunch. Qed.
-
-(* the whole optimisation on the dict of that workflow: inline a, alias results *)
+(* ---- 4. (repaired in /repo c89db96, finding C17-FUSE-ALIAS-COLLISION) ------------------------------------------- *)
+(* Task('a', f1, 'a-results') -> Task('r', f2): formerly fuse stored the fused chain under the made-up key
+   'a-results' (= 99) and the static string became a reference of the task to itself ("Cycle detected" with the
+   distributed dispatcher).  optimize.py now calls fuse(rename_keys=False): inline steps only. *)
 Definition al_a : task := mkTask 1 1 1 [SStr 99] false.
 Definition al_r : task := mkTask 2 2 2 [] false.
 Definition al_wf : tgraph := workflow_of (add_task (add_task g_empty al_a []) al_r [al_a]).
-Theorem alias_name_collision_optimize_refuted :
-  exists (g : tgraph) (ids : task -> positive) (steps : list fstep),
-    fuse_steps_weak (scatter_dsk (the_dict g ids)) steps = (true, true) /\ avoids results steps = true /\
-    dask_get fam_apply (the_dict g ids) results = ROk (STuple [SAtom 2; STuple [SAtom 1; SStr 99]]) /\
-    dask_get_dist_log fam_apply (fst (fuse_steps (scatter_dsk (the_dict g ids)) steps)) results = (RCycle, []).
-Proof. exists al_wf, r_ids, [FInline 11; FAlias results 99]%positive. crunch. Qed.
+
+Example alias_collision_fixed :
+  inline_only [FInline 11] = true /\
+  fuse_steps (scatter_dsk (the_dict al_wf r_ids)) [FInline 11] =
+    ([(results, STuple [SFun 2; STuple [SFun 1; SStr 99]])], true) /\
+  dask_get fam_apply (the_dict al_wf r_ids) results = ROk (STuple [SAtom 2; STuple [SAtom 1; SStr 99]]) /\
+  dask_get_dist_log fam_apply (fst (fuse_steps (scatter_dsk (the_dict al_wf r_ids)) [FInline 11])) results =
+    dask_get_log fam_apply (the_dict al_wf r_ids) results.
+Proof. crunch. Qed.
+
+(* what the renaming step did (the code before the repair): legal for fuse, but the made-up name is mentioned *)
+Definition al_d : dsk := [(results, STuple [SFun 2; STuple [SFun 1; SStr 99]])].
+Example renaming_step_made_a_cycle :
+  g_alias_unmentioned al_d 99 = false /\ fuse_step_ok_weak al_d (FAlias results 99) = true /\
+  dask_get fam_apply al_d results = ROk (STuple [SAtom 2; STuple [SAtom 1; SStr 99]]) /\
+  dask_get fam_apply (fuse_step al_d (FAlias results 99)) results = RCycle.
+Proof. crunch. Qed.
